@@ -5,6 +5,7 @@ INIT Init
 NEXT Next
 INVARIANT TypeOK
 INVARIANT ResultIsRequested
+INVARIANT NeverGarbage
 INVARIANT RejectIffNotCovered
 INVARIANT BoundedKdf
 INVARIANT CoverIsDerivable
